@@ -80,7 +80,9 @@ pub fn mutate_check(bytes: &[u8], script: &[BOp], rep: &mut CaseReport) -> Resul
     // for a few hundred more bytes, then write() returns Ok(0) - never an endless loop
     let fixed = fnv64(bytes) % 4 == 0;
     if fixed {
-        io.cap = crate::backend::FIXED_BIT | (bytes.len() + (fnv64(bytes) >> 8) as usize % 3000);
+        // half of them with no room at all beyond the current length
+        let slack = if (fnv64(bytes) >> 4) % 2 == 0 { 0 } else { (fnv64(bytes) >> 8) as usize % 3000 };
+        io.cap = crate::backend::FIXED_BIT | (bytes.len() + slack);
         rep.classes.push("fixed_size_backend".into());
     }
     let opened = guard("open", || open_options(None, false).open_with(io))?;
